@@ -1099,4 +1099,33 @@ pub(crate) const MAX_PUBKEY_SIZE: usize = 97;""")]),
         }
         extract_ctx.input_ikm(piece);
     }""")]),
+    dict(name='c04-nonce-enumerate-loop-wrong-position', expect=[('C04', 'R04.1')],
+         note='enumerate/index spelling of the XOR loop that mixes in counter byte 0 at every position',
+         edits=[(AEAD, """    let new_nonce_iter = base_nonce
+        .0
+        .iter()
+        .zip(seq_buf.0.iter())
+        .map(|(nonce_byte, seq_byte)| nonce_byte ^ seq_byte);
+
+    // This cannot fail, as the length of AeadNonce<A> is precisely the length of Seq
+    AeadNonce(GenericArray::from_exact_iter(new_nonce_iter).unwrap())""", """    let mut new_nonce = AeadNonce::<A>::default();
+    for (i, out_byte) in new_nonce.0.iter_mut().enumerate() {
+        *out_byte = base_nonce.0[i] ^ seq_buf.0[0];
+    }
+    new_nonce""")]),
+    dict(name='c04-nonce-enumerate-loop-base-twice', expect=[('C04', 'R04.1')],
+         note='enumerate/index spelling of the XOR loop that XORs the base nonce with itself: every nonce is zero',
+         edits=[(AEAD, """    let new_nonce_iter = base_nonce
+        .0
+        .iter()
+        .zip(seq_buf.0.iter())
+        .map(|(nonce_byte, seq_byte)| nonce_byte ^ seq_byte);
+
+    // This cannot fail, as the length of AeadNonce<A> is precisely the length of Seq
+    AeadNonce(GenericArray::from_exact_iter(new_nonce_iter).unwrap())""", """    let mut new_nonce = AeadNonce::<A>::default();
+    for (i, out_byte) in new_nonce.0.iter_mut().enumerate() {
+        *out_byte = base_nonce.0[i] ^ base_nonce.0[i];
+    }
+    let _ = &seq_buf;
+    new_nonce""")]),
 ]
